@@ -475,7 +475,8 @@ static inline Error X86Internal_setup_save_restore_info(RegGroup group, const Fu
     case RegGroup::kMask:
       reg_out = k(0);
       inst_out = Inst::kIdKmovq;
-      size_out = reg_out->size();
+      // `Reg::size()` of a mask register is 0 - use the slot size FuncFrame::finalize() reserves.
+      size_out = frame.save_restore_reg_size(group);
       return Error::kOk;
 
     case RegGroup::kX86_MM:
